@@ -217,6 +217,78 @@ class ResolveStream(Stream):
         return fails
 
 
+class RetryAfterFault(Stream):
+    """history inside one process: a transfer of the newest file goes wrong once (junk body, error status, cut short), the
+    request is made again when the fault is gone - the fresh, good download must be used (wheels and source archives)"""
+    name = "retry-after-fault"
+    quick_n = 60
+    thorough_n = 3000
+    batch = 20
+
+    def setup(self):
+        self.tmp = tempfile.mkdtemp(prefix="rvc15r")
+
+    def teardown(self):
+        shutil.rmtree(getattr(self, "tmp", ""), ignore_errors=True)
+
+    def generate(self, rng):
+        return {"kind": rng.choice(["wheel", "sdist", "sdist-zip"]), "fault": rng.choice(["junk", "junk", "error-status", "cut-short"]),
+                "with_hash": rng.random() < 0.7}
+
+    def impl(self, case):
+        from rv.core import digest
+        from rv.props.c07 import sdist_bytes
+        from req_compile.repos.pypi import PyPIRepository
+        from req_compile.utils import parse_requirement
+        from req_compile.errors import NoCandidateException
+        d = os.path.join(self.tmp, digest(case))
+        wheeldir = os.path.join(d, "wheels")
+        os.makedirs(wheeldir, exist_ok=True)
+        if case["kind"] == "wheel":
+            fn2, good2 = B.wheel_name("foo", "2.0"), GOOD2
+        elif case["kind"] == "sdist":
+            fn2, good2 = "foo-2.0.tar.gz", sdist_bytes("foo", "2.0", [])
+        else:
+            import io as _io
+            import zipfile as _zip
+            buf = _io.BytesIO()
+            with _zip.ZipFile(buf, "w") as z:
+                z.writestr("foo-2.0/setup.py", "from setuptools import setup\nsetup(name='foo', version='2.0')\n")
+            fn2, good2 = "foo-2.0.zip", buf.getvalue()
+        fn1 = B.wheel_name("foo", "1.0")
+        idx = B.FakeIndex("http://idx.example/simple", {"foo": {fn2: good2, fn1: GOOD1}}, with_hash=case["with_hash"])
+        file_url = "http://idx.example/files/" + fn2 + ("#sha256=" + hashlib.sha256(good2).hexdigest() if case["with_hash"] else "")
+        idx.faults[file_url] = [{"junk": (200, JUNK), "error-status": (503, None), "cut-short": (200, good2[: len(good2) // 2])}[case["fault"]]]
+        B.clear_page_cache()
+        repo = PyPIRepository("http://idx.example/simple", wheeldir)
+        repo.session = B.FakeSession([idx])
+        out = {"advertised": hashlib.sha256(good2).hexdigest(), "fn": fn2}
+        try:
+            for phase in ("first", "second"):
+                try:
+                    dist, _ = repo.get_dist(parse_requirement("foo"))
+                    out[phase] = str(dist.version)
+                except NoCandidateException:
+                    out[phase] = "NoCandidate"
+                except Exception as ex:
+                    out[phase] = "raise:" + type(ex).__name__
+                B.clear_page_cache()
+            out["dir_after"] = ResolveStream._listing(wheeldir)
+        finally:
+            shutil.rmtree(d, ignore_errors=True)
+        return out
+
+    def flags(self, case, r):
+        return ["kind:" + case["kind"], "fault:" + case["fault"], "first:" + r.get("first", "?"), "second:" + r.get("second", "?")]
+
+    def oracle(self, case, r):
+        if r.get("second") != "2.0":
+            return [("C15/good-download-after-a-damaged-one-not-used/" + case["kind"], {"first": r.get("first"), "second": r.get("second"), "fault": case["fault"]})]
+        if r["dir_after"].get(r["fn"]) != r["advertised"]:
+            return [("C15/damaged-file-left-in-cache", {"dir": r["dir_after"]})]
+        return []
+
+
 class PageStream(Stream):
     """retry budget of the index page scan"""
     name = "page-retry"
@@ -437,4 +509,4 @@ class BazelWheeldirStream(Stream):
 
 
 def streams():
-    return [ResolveStream(), PageStream(), CliExitStream(), BazelWheeldirStream()]
+    return [ResolveStream(), RetryAfterFault(), PageStream(), CliExitStream(), BazelWheeldirStream()]
